@@ -93,7 +93,9 @@ def cond_gate(ci: int, c1: bool, c2: bool, c3: bool, fc: int, bk: int, msg: str,
     return ""
 
 
-NAMES = ["x", "hg", "len", "uuid", "FrameCollector", "time_ns", "VariableCacheProvider", "deep", "__name__"]
+NAMES = ["x", "hg", "len", "uuid", "FrameCollector", "time_ns", "VariableCacheProvider", "deep", "__name__",
+         # expressions are evaluated as written: white space inside string literals is part of the program text
+         "len('a  b')", "len('a\tb') + x", "'p  q' if x else ' \t'", "x   +  1"]
 
 
 def _py_eval(expr, g, l):
@@ -123,7 +125,7 @@ def scope(ni: int, site: int, lv: int, gv: int, shadow: bool) -> str:
     """
     Which names an expression sees: the frame's locals and its module globals and builtins; nothing of the agent's.
     site 0: watch, 1: log field, 2: metric label expression, 3: condition.
-    PRE: 0 <= ni <= 8 and 0 <= site <= 3 and 0 <= lv <= 1 and 0 <= gv <= 1
+    PRE: 0 <= ni <= 12 and 0 <= site <= 3 and 0 <= lv <= 1 and 0 <= gv <= 1
     POST: _ == ""
     """
     world.begin_path()
@@ -288,9 +290,9 @@ CONDITIONS = [
                 "mutant:agent_globals@ci == 8 and bk == 0 and ak == 0"],
          bounds="3 hits, per-hit boolean local symbolic, fire_count unbounded int, 9 condition flavours incl. failing ones whose "
                 "exception message is a free string <= 4 chars, 4 exception classes (Exception, BaseException subclass, KeyboardInterrupt, SystemExit); the gated action is a snapshot, a log line, a metric or a span"),
-    dict(fn="scope", cubes=["ni == %d and site == %d" % (n, s) for n in range(9) for s in range(4)],
+    dict(fn="scope", cubes=["ni == %d and site == %d" % (n, s) for n in range(13) for s in range(4)],
          twins=["reach", "mutant:agent_globals@ni == 1 and site == 0", "mutant:agent_globals@ni == 3 and site == 3"],
-         bounds="9 names (local, host global, builtin, 5 agent-module names, __name__) x 4 evaluation sites; values 0..1; local shadowing the global"),
+         bounds="9 names (local, host global, builtin, 5 agent-module names, __name__) and 4 expressions with significant white space (inside string literals: two blanks, a TAB) x 4 evaluation sites; values 0..1; local shadowing the global"),
     dict(fn="isolation", cubes=["fi == %d and bk == %d" % (i, b) for i in range(6) for b in ((0, 1, 2, 3) if i == 2 else (0,))], twins=["reach"],
          bounds="3 watches, one failing (6 flavours x 4 exception classes) at any position"),
 ]
